@@ -2,7 +2,8 @@
    proofs/P_C20.v.  Models: model/Memory.v (AccessRight, MemoryProtection, generated read_raw / write_raw / read /
    write / notify_all, register codecs, layout) and model/MacroBitField.v (what #[register_map] generates for
    BitField registers, as a function of bits, signedness, declared LSB/MSB and endianness), both describing the
-   code after the four "fix:" commits of C20; the pinned behaviour is kept as *_v0 and refuted below.
+   code after the five "fix:" commits of C20 (the fifth: compile-time len = size_of(ty) for numerical registers,
+   modelled by decl_accepts); the pinned behaviour is kept as *_v0 and refuted below.
    Vocabulary (P_C20.v): prot_wf / mem_wf = packed protection vector of the right length over bytes and raw memory of
    the protected size; cells_all f p s e = every cell of [s,e) satisfies f; bf_ok bits l m = 0 <= l <= m < bits,
    bits in {8,16,32,64} (normalised LSB-0 positions; norm_pos maps the declared numbering); f_min/f_max = range of
